@@ -166,7 +166,56 @@ def decide(m):
     return {"claim": "none", "cert": "CNone"}
 
 
+def primal_opt(m, rows):
+    """exact optimal point of the LP (None if not optimal)"""
+    claim, cert, val = solve_lp(m, rows)
+    if claim != "opt":
+        return None
+    import re
+    xs = cert[len("(COpt "):].split("] [")[0]
+    return xs + "]"
+
+
+def sens(m):
+    """for every named row: the optimal points of the problem with that rhs moved by +-delta"""
+    rows = rows_all(m)
+    if rows is None or not set(t["k"] for t in m["types"]) <= {"NN", "Real"} or m["dir"] == "sat":
+        return {"claim": "none"}
+    claim, cert, val = solve_lp(m, rows)
+    if claim != "opt":
+        return {"claim": claim}
+    x, y = cert[len("(COpt "):-1].split("] [")
+    x, y = x + "]", "[" + y
+    delta = Fraction(1, 8)
+    out = []
+    for i, r in enumerate(m["rows"]):
+        if not r["name"]:
+            continue
+        pts = []
+        for d in (delta, -delta):
+            rows2 = list(rows)
+            a, c, b = rows2[i]
+            rows2[i] = (a, c, b + d)
+            pts.append(primal_opt(m, rows2))
+        if pts[0] is None or pts[1] is None:
+            continue
+        out.append({"row": i, "name": r["name"], "delta": q(delta), "xp": pts[0], "xm": pts[1]})
+    return {"claim": "opt", "x": x, "y": y, "rows": out, "value": str(val)}
+
+
 def main():
+    if sys.argv[1] == "--sens":
+        out = open(sys.argv[3], "w")
+        for line in open(sys.argv[2]):
+            m = json.loads(line)
+            try:
+                r = sens(m)
+            except Exception as ex:
+                r = {"claim": "none", "error": repr(ex)}
+            r["id"] = m["id"]
+            out.write(json.dumps(r) + "\n")
+        out.close()
+        return
     out = open(sys.argv[2], "w")
     for line in open(sys.argv[1]):
         m = json.loads(line)
